@@ -8,6 +8,7 @@
 #include "player.hpp"
 #include "enumx.hpp"
 #include "sched.hpp"
+#include "gen_music.hpp"
 
 namespace {
 
@@ -88,6 +89,33 @@ int main(int argc, char **argv) {
             if(db != sb) { o.fail(std::string("C14/interference/") + CNAME[(i / NCORES) % NCORES] + "/by-" + CNAME[i % NCORES], "the output of the second instance differs from its solo run when interleaved as " + order() + " [" + o.sample + "]"); return; }
         }
         o.units = IL.size(); o.nontrivial = true; };
+      fams.push_back(F); }
+    { // the file loaders and converters are part of an instance's history too: a song loaded by another instance must not change what this one plays
+      std::vector<std::vector<int>> il; interleavings({3, 3}, il); static std::vector<std::vector<int>> ILF; ILF = il;
+      static std::vector<gm::Bytes> SONGS; if(SONGS.empty()) {
+          SONGS.push_back(gm::mus({0x10, 0x3C, 0x90, 0x3E, 0x20, 0x00, 0x3C, 0x80, 0x3E, 0x10, 0x60}, 1, 1));                  // MUS, key-ons without a volume byte (relies on the format's initial volume)
+          SONGS.push_back(gm::mus({0x10, 0xBC, 0x7F, 0x90, 0xBE, 0x7F, 0x20, 0x00, 0x3C, 0x80, 0x3E, 0x10, 0x60}, 1, 1));      // MUS, key-ons with volume 127 on the same channel
+          SONGS.push_back(gm::seed_xmi()); SONGS.push_back(gm::seed_smf1()); SONGS.push_back(gm::seed_mus()); }
+      static const char *SN[] = {"MUS without volume bytes", "MUS with volume 127", "XMI (2 songs)", "SMF format 1", "MUS seed"};
+      en::Family F; F.name = "file_loads_two_instances"; F.count = 5 * 5; F.chunk = 1; F.budget_s = 600; F.describe = "observed instance loads and plays song A, interfering instance loads and plays song B, A and B over {MUS without volume bytes, MUS with volume 127, XMI, SMF, MUS seed}; all " + std::to_string(il.size()) + " interleavings of the two 3-call histories [create+bank, openData+play 1024, play 4096+close] on one thread, each in a fresh process; PCM and register stream of both must equal their solo runs";
+      F.run = [](uint64_t i, en::CaseOut &o) { int sa = (int)(i % 5), sb = (int)(i / 5);
+        struct FRun { int song; pl::Instance I; std::string pcm; vu::Ser regs; int step = 0;
+            void call(int k) { static __thread short buf[8192];
+                if(k == 0) { I.create(44100); I.tap.logging = true; opn2_setNumChips(I.dev, 1); opn2_openBankData(I.dev, g_bank.data(), (long)g_bank.size()); }
+                else if(k == 1) { if(opn2_openData(I.dev, SONGS[(size_t)song].data(), (unsigned long)SONGS[(size_t)song].size()) != 0) pcm += "LOAD-FAILED"; int n = opn2_play(I.dev, 1024, buf); pcm.append((const char *)buf, (size_t)(n > 0 ? n : 0) * 2); }
+                else { int n = opn2_play(I.dev, 4096, buf); pcm.append((const char *)buf, (size_t)(n > 0 ? n : 0) * 2); for(auto &w : I.tap.log) { regs.u16(w.chip); regs.u8(w.port); regs.u16(w.reg); regs.u16(w.val); regs.u8(w.kind); } I.close(); } }
+            std::string digest() { vu::H128 a = vu::hash128(pcm), b = vu::hash128(regs.s); return vu::hex(&a, sizeof a) + ":" + vu::hex(&b, sizeof b); } };
+        auto in_child = [&](const std::function<std::string()> &fn) { int fds[2]; if(pipe(fds)) return std::string(); fflush(stdout); fflush(stderr); pid_t p = fork();
+            if(p == 0) { close(fds[0]); std::string d = fn(); if(write(fds[1], d.data(), d.size())) {} _exit(0); }
+            close(fds[1]); std::string d; char t[256]; ssize_t r; while((r = read(fds[0], t, sizeof t)) > 0) d.append(t, (size_t)r); close(fds[0]); int st; waitpid(p, &st, 0); if(!(WIFEXITED(st) && WEXITSTATUS(st) == 0)) return std::string("CRASH"); return d; };
+        std::string solo_a = in_child([&]() { FRun r; r.song = sa; for(int k = 0; k < 3; k++) r.call(k); return r.digest(); }), solo_b = in_child([&]() { FRun r; r.song = sb; for(int k = 0; k < 3; k++) r.call(k); return r.digest(); });
+        o.sample = std::string("observed: ") + SN[sa] + " / interfering: " + SN[sb];
+        { std::string chk = in_child([&]() { FRun r; r.song = sa; r.call(0); r.call(1); int keyons = 0; for(auto &w : r.I.tap.log) if(!w.kind && w.reg == 0x28 && (w.val & 0xF0)) keyons++; return r.pcm.find("LOAD-FAILED") != std::string::npos ? std::string("load failed") : keyons ? std::string("ok") : std::string("no key-on in the first 1024 samples"); }); if(chk != "ok") { o.fail("C14/harness-song", std::string(SN[sa]) + ": " + chk); return; } }
+        for(size_t k = 0; k < ILF.size(); k++) { std::string d = in_child([&]() { FRun ra, rb; ra.song = sa; rb.song = sb; for(int who : ILF[k]) { FRun &r = who ? rb : ra; r.call(r.step++); } return ra.digest() + "/" + rb.digest(); });
+            std::string order; for(int who : ILF[k]) order += who ? 'B' : 'A';
+            if(d == "CRASH") { o.fail("C14/crash/file-load-interleaving", "interleaving " + order + " crashed [" + o.sample + "]"); return; }
+            if(d != solo_a + "/" + solo_b) { bool first = d.substr(0, d.find('/')) != solo_a; o.fail(std::string("C14/interference/file-load/") + (first ? SN[sa] : SN[sb]), std::string("the output of the ") + (first ? "observed" : "interfering") + " instance differs from its solo run when interleaved as " + order + " [" + o.sample + "]"); return; } }
+        o.units = ILF.size(); o.nontrivial = true; };
       fams.push_back(F); }
     { std::vector<std::vector<int>> il; interleavings({2, 2, 2}, il); static std::vector<std::vector<int>> IL3; IL3 = il;
       static const int TRI[][3] = {{0, 1, 7}, {7, 1, 0}, {2, 4, 5}, {4, 4, 4}, {3, 6, 0}, {1, 7, 1}, {5, 0, 2}, {6, 3, 4}};
